@@ -50,9 +50,10 @@ package utils
 
 // ---------------------------------------------------------------------------
 // C12: decimal64 values are compared as numbers. decimalNumber(d, p) stands for the number d / 10^p (an abstract
-// identifier); all that is assumed of it is that a trailing zero does not change the number.
+// identifier); all that is assumed of it is that a trailing zero does not change the number and that zero is zero at every precision.
 //@ spec decimalNumber(int, int) int
 //@ axiom decimal_trailing_zero: allint(d, allint(p, trigger(decimalNumber(d * 10, p + 1), decimalNumber(d * 10, p + 1) == decimalNumber(d, p))))
+//@ axiom decimal_zero: allint(p, trigger(decimalNumber(0, p), decimalNumber(0, p) == decimalNumber(0, 0)))
 //@ func scaleDecimal64
 //@   props C12 C15 C09
 //@   modifies nothing
